@@ -95,5 +95,16 @@ theorem get_mut_eq (d : Rec α β) (m : TreeImage α β) (key : α) (v : β) :
     cases Imp.find d m key (m.recs.length + 1) m.hdr.root <;> rfl
   · rfl
 
+/-- `get_mut` does not touch the image. -/
+theorem get_mut_fst (d : Rec α β) (m : TreeImage α β) (key : α) (r : TreeImage α β × Option Nat)
+    (h : get_mut d m key = some r) : r.1 = m := by
+  simp only [get_mut] at h
+  cases hf : find d m key with
+  | none => rw [hf] at h; cases h
+  | some t =>
+    rw [hf] at h
+    simp only [Option.bind_eq_bind, Option.bind_some, pure, Option.some.injEq] at h
+    rw [← h]
+
 end Gen8
 end Stevia
